@@ -72,9 +72,6 @@ MODEL_TRAITS = {'arrival::ArrivalBound': None, 'wcet::JobCostModel': 'C14', 'dem
 INVENTORY_EXEMPT = (
     # reported by STEP-NONZERO as a known finding, never pinned as a reference
     '<arrival::arrival_curve_prefix::ArrivalCurvePrefix as arrival::ArrivalBound>::steps_iter',
-    # floating point: C15 is not applicable
-    '<arrival::poisson::ApproximatedPoisson as arrival::ArrivalBound>::number_arrivals',
-    '<arrival::poisson::ApproximatedPoisson as arrival::ArrivalBound>::clone_with_jitter',
 )
 
 
